@@ -1797,7 +1797,10 @@ class Process:
 
     @wrap_exceptions
     def cmdline(self):
-        with open_text(f"{self._procfs_path}/{self.pid}/cmdline") as f:
+        # newline="": arguments may contain "\r"; do not translate it.
+        with open_text(
+            f"{self._procfs_path}/{self.pid}/cmdline", newline=""
+        ) as f:
             data = f.read()
         if not data:
             # may happen in case of zombie process
@@ -1823,7 +1826,9 @@ class Process:
 
     @wrap_exceptions
     def environ(self):
-        with open_text(f"{self._procfs_path}/{self.pid}/environ") as f:
+        with open_text(
+            f"{self._procfs_path}/{self.pid}/environ", newline=""
+        ) as f:
             data = f.read()
         return parse_environ_block(data)
 
